@@ -70,6 +70,18 @@ fn loop_parked(tid: i32, epfd: i32) -> bool {
     n == 5
 }
 
+/// two cases in five: a timer armed far beyond the case's lifetime sits in the loop, so that every untimed wait is
+/// bounded by a timer deadline instead of being infinite (wake-ups and stop requests must get through all the same)
+fn far_timer<D>(el: &EventLoop<D>, c: &SchedCase, o: &mut ExecOutcome) {
+    if c.case % 5 < 2 {
+        let secs = 45 + (c.case % 7) * 5;
+        el.handle()
+            .insert_source(calloop::timer::Timer::from_duration(Duration::from_secs(secs)), |_, _, _| calloop::timer::TimeoutAction::Drop)
+            .expect("timer");
+        o.cov("far-timer-armed-during-the-waits");
+    }
+}
+
 pub fn run(c: &SchedCase) -> ExecOutcome {
     match c.variant % 6 {
         0 | 1 => run_stop(c),
@@ -84,6 +96,7 @@ fn run_wakeups(c: &SchedCase) -> ExecOutcome {
     let mut o = ExecOutcome::default();
     let mut rng = Rng::derive(c.seed, c.case, 8);
     let mut el: EventLoop<u64> = EventLoop::try_new().expect("loop");
+    far_timer(&el, c, &mut o);
     let epfd = std::os::fd::AsRawFd::as_raw_fd(&el);
     let sig = el.get_signal();
     let started = Arc::new(AtomicBool::new(false));
@@ -209,6 +222,7 @@ fn loop_parked_quick(tid: i32, epfd: i32) -> bool {
 fn run_sticky(c: &SchedCase) -> ExecOutcome {
     let mut o = ExecOutcome::default();
     let mut el: EventLoop<()> = EventLoop::try_new().expect("loop");
+    far_timer(&el, c, &mut o);
     let sig = el.get_signal();
     hookrec::begin(&c.plan);
     let n = 1 + c.case % 3;
@@ -243,6 +257,7 @@ fn run_stop(c: &SchedCase) -> ExecOutcome {
     let mut rng = Rng::derive(c.seed, c.case, 6);
     let none_timeout = c.variant % 4 == 0;
     let mut el: EventLoop<u64> = EventLoop::try_new().expect("loop");
+    far_timer(&el, c, &mut o);
     let epfd = std::os::fd::AsRawFd::as_raw_fd(&el);
     let sig = el.get_signal();
     let started = Arc::new(AtomicBool::new(false));
@@ -422,6 +437,7 @@ fn run_block_on(c: &SchedCase) -> ExecOutcome {
     let m = c.ops.max(1);
     let stop_instead = c.case % 3 == 0;
     let mut el: EventLoop<u64> = EventLoop::try_new().expect("loop");
+    far_timer(&el, c, &mut o);
     let epfd = std::os::fd::AsRawFd::as_raw_fd(&el);
     let sig = el.get_signal();
     let polls = Arc::new(AtomicU32::new(0));
@@ -442,6 +458,13 @@ fn run_block_on(c: &SchedCase) -> ExecOutcome {
     hookrec::begin(&plan);
     let mut all: Vec<Vec<Rec>> = Vec::new();
     let mut iters = 0u64;
+    if c.case % 5 == 3 {
+        // the loop has been used by an earlier block_on whose future was ready at once
+        match el.block_on(std::future::ready(7u32), &mut iters, |_| {}) {
+            Ok(Some(7)) => o.cov("block_on:second-call-on-the-same-loop"),
+            other => o.alarm("some_iff_completed", "ready-future-not-returned", format!("block_on(ready(7)) returned {:?}", other.map_err(|e| e.to_string()))),
+        }
+    }
     let mut out: Option<u32> = None;
     let mut rescue = false;
     let mut parked_verdict = false;
